@@ -2,12 +2,15 @@ package c04
 
 import (
 	"encoding/hex"
+	"fmt"
 	"os"
 	"time"
 
 	"verif/checks/apworld"
 	"verif/checks/c03"
 	"verif/engine"
+	"verif/ref/der"
+	"verif/ref/krbmsg"
 	rpac "verif/ref/pac"
 
 	"github.com/jcmturner/gofork/encoding/asn1"
@@ -73,6 +76,28 @@ func authz(ad types.AuthorizationData) {
 	}
 }
 
+// lastErr is the error of the entry point's primary call on the current input (set through note); used to make
+// sure that every seed is a VALID input of its entry point, so that the mutations explore what lies behind a
+// successful decode.
+var lastErr error
+
+func note(err error) error {
+	if err != nil && lastErr == nil {
+		lastErr = err
+	}
+	return err
+}
+
+// seedsMayFail lists entry points whose seeds are deliberately not all valid for every call the entry makes.
+var seedsMayFail = map[string]bool{
+	"pac.other-NDR-buffers.Unmarshal": true, // one validation-info buffer fed to five other NDR decoders
+	"pac.ClientClaimsInfo.Unmarshal":  true, // claims seeds fed to the device-claims decoder too
+	"types.ETypeInfoEntry.Unmarshal":  true, // one seed, two entry types
+	"types.PAEncTSEnc.Unmarshal":      true, // one seed, three types
+	"gssapi.WrapToken.Unmarshal":      true, // initiator and acceptor direction on the same token
+	"gssapi.MICToken.Unmarshal":       true,
+}
+
 var registryBuilt bool
 
 // withFlows: the decoder worker does not build (or run) the client and service flows at all.
@@ -94,7 +119,7 @@ func buildRegistry() {
 	// ---- messages
 	register(&entry{name: "messages.Ticket.Unmarshal", kind: "der", small: 3, seeds: td(testdata.MarshaledKRB5ticket), run: func(b []byte) {
 		var t messages.Ticket
-		if t.Unmarshal(b) == nil {
+		if note(t.Unmarshal(b)) == nil {
 			pname(t.SName)
 			t.Marshal()
 			t.DecryptEncPart(kt, nil)
@@ -103,7 +128,7 @@ func buildRegistry() {
 	}})
 	register(&entry{name: "messages.EncTicketPart.Unmarshal", kind: "der", small: 3, seeds: td(testdata.MarshaledKRB5enc_tkt_part, testdata.MarshaledKRB5enc_tkt_partOptionalsNULL), run: func(b []byte) {
 		var t messages.EncTicketPart
-		if t.Unmarshal(b) == nil {
+		if note(t.Unmarshal(b)) == nil {
 			flags(&t.Flags)
 			pname(t.CName)
 			authz(t.AuthorizationData)
@@ -114,7 +139,7 @@ func buildRegistry() {
 	}})
 	register(&entry{name: "messages.ASRep.Unmarshal", kind: "der", seeds: td(testdata.MarshaledKRB5as_rep, testdata.MarshaledKRB5as_repOptionalsNULL), run: func(b []byte) {
 		var m messages.ASRep
-		if m.Unmarshal(b) == nil {
+		if note(m.Unmarshal(b)) == nil {
 			pname(m.CName)
 			padata(m.PAData)
 			m.DecryptEncPart(credentials.New("u", "R").WithPassword("pw"))
@@ -123,7 +148,7 @@ func buildRegistry() {
 	}})
 	register(&entry{name: "messages.TGSRep.Unmarshal", kind: "der", seeds: td(testdata.MarshaledKRB5tgs_rep, testdata.MarshaledKRB5tgs_repOptionalsNULL), run: func(b []byte) {
 		var m messages.TGSRep
-		if m.Unmarshal(b) == nil {
+		if note(m.Unmarshal(b)) == nil {
 			pname(m.CName)
 			m.DecryptEncPart(key18)
 			m.Marshal()
@@ -131,7 +156,7 @@ func buildRegistry() {
 	}})
 	register(&entry{name: "messages.EncKDCRepPart.Unmarshal", kind: "der", small: 3, seeds: td(testdata.MarshaledKRB5enc_kdc_rep_part, testdata.MarshaledKRB5enc_kdc_rep_partOptionalsNULL), run: func(b []byte) {
 		var m messages.EncKDCRepPart
-		if m.Unmarshal(b) == nil {
+		if note(m.Unmarshal(b)) == nil {
 			flags(&m.Flags)
 			pname(m.SName)
 			padata(m.EncPAData)
@@ -140,7 +165,7 @@ func buildRegistry() {
 	}})
 	register(&entry{name: "messages.APReq.Unmarshal", kind: "der", seeds: td(testdata.MarshaledKRB5ap_req), run: func(b []byte) {
 		var m messages.APReq
-		if m.Unmarshal(b) == nil {
+		if note(m.Unmarshal(b)) == nil {
 			flags(&m.APOptions)
 			pname(m.Ticket.SName)
 			m.Verify(kt, time.Minute, types.HostAddress{}, nil)
@@ -149,15 +174,15 @@ func buildRegistry() {
 	}})
 	register(&entry{name: "messages.APRep.Unmarshal", kind: "der", small: 3, seeds: td(testdata.MarshaledKRB5ap_rep), run: func(b []byte) {
 		var m messages.APRep
-		m.Unmarshal(b)
+		note(m.Unmarshal(b))
 	}})
 	register(&entry{name: "messages.EncAPRepPart.Unmarshal", kind: "der", small: 3, seeds: td(testdata.MarshaledKRB5ap_rep_enc_part, testdata.MarshaledKRB5ap_rep_enc_partOptionalsNULL), run: func(b []byte) {
 		var m messages.EncAPRepPart
-		m.Unmarshal(b)
+		note(m.Unmarshal(b))
 	}})
 	register(&entry{name: "messages.ASReq.Unmarshal", kind: "der", seeds: td(testdata.MarshaledKRB5as_req, testdata.MarshaledKRB5as_reqOptionalsNULLexceptsecond_ticket, testdata.MarshaledKRB5as_reqOptionalsNULLexceptserver), run: func(b []byte) {
 		var m messages.ASReq
-		if m.Unmarshal(b) == nil {
+		if note(m.Unmarshal(b)) == nil {
 			flags(&m.ReqBody.KDCOptions)
 			pname(m.ReqBody.CName)
 			pname(m.ReqBody.SName)
@@ -167,21 +192,21 @@ func buildRegistry() {
 	}})
 	register(&entry{name: "messages.TGSReq.Unmarshal", kind: "der", seeds: td(testdata.MarshaledKRB5tgs_req, testdata.MarshaledKRB5tgs_reqOptionalsNULLexceptsecond_ticket, testdata.MarshaledKRB5tgs_reqOptionalsNULLexceptserver), run: func(b []byte) {
 		var m messages.TGSReq
-		if m.Unmarshal(b) == nil {
+		if note(m.Unmarshal(b)) == nil {
 			flags(&m.ReqBody.KDCOptions)
 			m.Marshal()
 		}
 	}})
 	register(&entry{name: "messages.KDCReqBody.Unmarshal", kind: "der", seeds: td(testdata.MarshaledKRB5kdc_req_body, testdata.MarshaledKRB5kdc_req_bodyOptionalsNULLexceptsecond_ticket, testdata.MarshaledKRB5kdc_req_bodyOptionalsNULLexceptserver), run: func(b []byte) {
 		var m messages.KDCReqBody
-		if m.Unmarshal(b) == nil {
+		if note(m.Unmarshal(b)) == nil {
 			flags(&m.KDCOptions)
 			m.Marshal()
 		}
 	}})
 	register(&entry{name: "messages.KRBError.Unmarshal", kind: "der", small: 3, seeds: td(testdata.MarshaledKRB5error, testdata.MarshaledKRB5errorOptionalsNULL), run: func(b []byte) {
 		var m messages.KRBError
-		if m.Unmarshal(b) == nil {
+		if note(m.Unmarshal(b)) == nil {
 			_ = m.Error()
 			pname(m.SName)
 			var pas types.PADataSequence
@@ -193,33 +218,33 @@ func buildRegistry() {
 	}})
 	register(&entry{name: "messages.KRBPriv.Unmarshal", kind: "der", small: 3, seeds: td(testdata.MarshaledKRB5priv), run: func(b []byte) {
 		var m messages.KRBPriv
-		if m.Unmarshal(b) == nil {
+		if note(m.Unmarshal(b)) == nil {
 			m.DecryptEncPart(key18)
 		}
 	}})
 	register(&entry{name: "messages.EncKrbPrivPart.Unmarshal", kind: "der", small: 3, seeds: td(testdata.MarshaledKRB5enc_priv_part, testdata.MarshaledKRB5enc_priv_partOptionalsNULL), run: func(b []byte) {
 		var m messages.EncKrbPrivPart
-		m.Unmarshal(b)
+		note(m.Unmarshal(b))
 	}})
 	register(&entry{name: "messages.KRBSafe.Unmarshal", kind: "der", small: 3, seeds: td(testdata.MarshaledKRB5safe, testdata.MarshaledKRB5safeOptionalsNULL), run: func(b []byte) {
 		var m messages.KRBSafe
-		m.Unmarshal(b)
+		note(m.Unmarshal(b))
 	}})
 	register(&entry{name: "messages.KRBCred.Unmarshal", kind: "der", seeds: td(testdata.MarshaledKRB5cred), run: func(b []byte) {
 		var m messages.KRBCred
-		if m.Unmarshal(b) == nil {
+		if note(m.Unmarshal(b)) == nil {
 			m.DecryptEncPart(key18)
 		}
 	}})
 	register(&entry{name: "messages.EncKrbCredPart.Unmarshal", kind: "der", seeds: td(testdata.MarshaledKRB5enc_cred_part, testdata.MarshaledKRB5enc_cred_partOptionalsNULL), run: func(b []byte) {
 		var m messages.EncKrbCredPart
-		m.Unmarshal(b)
+		note(m.Unmarshal(b))
 	}})
 
 	// ---- types
 	register(&entry{name: "types.Authenticator.Unmarshal", kind: "der", small: 3, seeds: td(testdata.MarshaledKRB5authenticator, testdata.MarshaledKRB5authenticatorOptionalsNULL, testdata.MarshaledKRB5authenticatorOptionalsEmpty), run: func(b []byte) {
 		var m types.Authenticator
-		if m.Unmarshal(b) == nil {
+		if note(m.Unmarshal(b)) == nil {
 			pname(m.CName)
 			authz(m.AuthorizationData)
 			m.Marshal()
@@ -227,7 +252,7 @@ func buildRegistry() {
 	}})
 	register(&entry{name: "types.AuthorizationData.Unmarshal", kind: "der", small: 3, seeds: td(testdata.MarshaledKRB5authorization_data, testdata.MarshaledPAC_AuthorizationData_GOKRB5), run: func(b []byte) {
 		var m types.AuthorizationData
-		if m.Unmarshal(b) == nil {
+		if note(m.Unmarshal(b)) == nil {
 			authz(m)
 			tk := messages.Ticket{DecryptedEncPart: messages.EncTicketPart{AuthorizationData: m}}
 			tk.GetPACType(kt, nil, nil)
@@ -235,19 +260,19 @@ func buildRegistry() {
 	}})
 	register(&entry{name: "types.AuthorizationDataEntry.Unmarshal", kind: "der", small: 3, seeds: td("300fa003020101a1080406666f6f626172"), run: func(b []byte) {
 		var m types.AuthorizationDataEntry
-		m.Unmarshal(b)
+		note(m.Unmarshal(b))
 	}})
 	register(&entry{name: "types.ADKDCIssued.Unmarshal", kind: "der", small: 3, seeds: td(testdata.MarshaledKRB5ad_kdcissued), run: func(b []byte) {
 		var m types.ADKDCIssued
-		m.Unmarshal(b)
+		note(m.Unmarshal(b))
 	}})
 	register(&entry{name: "types.TypedDataSequence.Unmarshal", kind: "der", small: 3, seeds: td(testdata.MarshaledKRB5typed_data), run: func(b []byte) {
 		var m types.TypedDataSequence
-		m.Unmarshal(b)
+		note(m.Unmarshal(b))
 	}})
 	register(&entry{name: "types.EncryptedData.Unmarshal", kind: "der", small: 3, seeds: td(testdata.MarshaledKRB5enc_data, testdata.MarshaledKRB5enc_dataMSBSetkvno, testdata.MarshaledKRB5enc_dataKVNONegOne), run: func(b []byte) {
 		var m types.EncryptedData
-		if m.Unmarshal(b) == nil {
+		if note(m.Unmarshal(b)) == nil {
 			for _, k := range []types.EncryptionKey{key18, key17, key23} {
 				crypto.DecryptEncPart(m, k, 3)
 			}
@@ -256,7 +281,7 @@ func buildRegistry() {
 	}})
 	register(&entry{name: "types.EncryptionKey.Unmarshal", kind: "der", small: 3, seeds: td(testdata.MarshaledKRB5keyblock), run: func(b []byte) {
 		var m types.EncryptionKey
-		if m.Unmarshal(b) == nil {
+		if note(m.Unmarshal(b)) == nil {
 			// a key of attacker-chosen type and length used as a key
 			crypto.DecryptMessage(make([]byte, 64), m, 3)
 			crypto.GetEncryptedData([]byte("x"), m, 3, 0)
@@ -264,45 +289,45 @@ func buildRegistry() {
 	}})
 	register(&entry{name: "types.Checksum.Unmarshal", kind: "der", small: 3, seeds: td("300ea003020101a10704053132333435"), run: func(b []byte) {
 		var m types.Checksum
-		m.Unmarshal(b)
+		note(m.Unmarshal(b))
 	}})
 	register(&entry{name: "types.PADataSequence.Unmarshal", kind: "der", small: 3, seeds: append(td(testdata.MarshaledKRB5padata_sequence, testdata.MarshaledKRB5padataSequenceEmpty), paSeeds()...), run: func(b []byte) {
 		var m types.PADataSequence
-		if m.Unmarshal(b) == nil {
+		if note(m.Unmarshal(b)) == nil {
 			padata(m)
 		}
 	}})
 	register(&entry{name: "types.PAData.Unmarshal", kind: "der", small: 3, seeds: td("3010a10302010da209040770612d64617461"), run: func(b []byte) {
 		var m types.PAData
-		if m.Unmarshal(b) == nil {
+		if note(m.Unmarshal(b)) == nil {
 			padata(types.PADataSequence{m})
 		}
 	}})
 	register(&entry{name: "types.ETypeInfo.Unmarshal", kind: "der", small: 3, seeds: td(testdata.MarshaledKRB5etype_info, testdata.MarshaledKRB5etype_infoOnly1, testdata.MarshaledKRB5etype_infoNoInfo), run: func(b []byte) {
 		var m types.ETypeInfo
-		if m.Unmarshal(b) == nil {
+		if note(m.Unmarshal(b)) == nil {
 			padata(types.PADataSequence{{PADataType: 11, PADataValue: b}})
 		}
 	}})
 	register(&entry{name: "types.ETypeInfo2.Unmarshal", kind: "der", small: 3, seeds: td(testdata.MarshaledKRB5etype_info2, testdata.MarshaledKRB5etype_info2Only1), run: func(b []byte) {
 		var m types.ETypeInfo2
-		if m.Unmarshal(b) == nil {
+		if note(m.Unmarshal(b)) == nil {
 			padata(types.PADataSequence{{PADataType: 19, PADataValue: b}})
 		}
 	}})
 	register(&entry{name: "types.ETypeInfoEntry.Unmarshal", kind: "der", small: 3, seeds: td("3014a003020100a10d040b4d6f72746f6e2773202330"), run: func(b []byte) {
 		var m types.ETypeInfoEntry
-		m.Unmarshal(b)
+		note(m.Unmarshal(b))
 		var m2 types.ETypeInfo2Entry
-		m2.Unmarshal(b)
+		note(m2.Unmarshal(b))
 	}})
 	register(&entry{name: "types.PAEncTSEnc.Unmarshal", kind: "der", small: 3, seeds: td(testdata.MarshaledKRB5pa_enc_ts, testdata.MarshaledKRB5pa_enc_tsNoUsec), run: func(b []byte) {
 		var m types.PAEncTSEnc
-		m.Unmarshal(b)
+		note(m.Unmarshal(b))
 		var m2 types.PAEncTimestamp
-		m2.Unmarshal(b)
+		note(m2.Unmarshal(b))
 		var m3 types.PAReqEncPARep
-		m3.Unmarshal(b)
+		note(m3.Unmarshal(b))
 	}})
 
 	// ---- spnego / gssapi
@@ -320,9 +345,9 @@ func buildRegistry() {
 	negInitBare := c03.NegInit([][]int{c03.OIDMSKRB5, c03.OIDKRB5}, krbTok, false)
 	negResp := c03.NegResp(0, c03.OIDKRB5, c03.KRB5Tok([]byte{2, 0}, hx(testdata.MarshaledKRB5ap_rep)[0]))
 	krbErrTok := c03.KRB5Tok([]byte{3, 0}, hx(testdata.MarshaledKRB5error)[0])
-	register(&entry{name: "spnego.SPNEGOToken.Unmarshal", kind: "der", seeds: [][]byte{negInit, negInitBare, negResp}, run: func(b []byte) {
+	register(&entry{name: "spnego.SPNEGOToken.Unmarshal", kind: "der", seeds: [][]byte{negInit, negResp}, run: func(b []byte) {
 		var t spnego.SPNEGOToken
-		if t.Unmarshal(b) == nil {
+		if note(t.Unmarshal(b)) == nil {
 			t.Marshal()
 		}
 	}})
@@ -340,17 +365,17 @@ func buildRegistry() {
 	}})
 	register(&entry{name: "spnego.NegTokenInit.Unmarshal", kind: "der", small: 3, seeds: [][]byte{negInitBare}, run: func(b []byte) {
 		var t spnego.NegTokenInit
-		t.Unmarshal(b)
+		note(t.Unmarshal(b))
 	}})
 	register(&entry{name: "spnego.NegTokenResp.Unmarshal", kind: "der", small: 3, seeds: [][]byte{negResp}, run: func(b []byte) {
 		var t spnego.NegTokenResp
-		if t.Unmarshal(b) == nil {
+		if note(t.Unmarshal(b)) == nil {
 			_ = t.State()
 		}
 	}})
 	register(&entry{name: "spnego.KRB5Token.Unmarshal", kind: "der", seeds: [][]byte{krbTok, c03.KRB5Tok([]byte{2, 0}, hx(testdata.MarshaledKRB5ap_rep)[0]), krbErrTok}, run: func(b []byte) {
 		var t spnego.KRB5Token
-		if t.Unmarshal(b) == nil {
+		if note(t.Unmarshal(b)) == nil {
 			t.IsAPReq()
 			t.IsAPRep()
 			t.IsKRBError()
@@ -368,7 +393,7 @@ func buildRegistry() {
 	register(&entry{name: "gssapi.WrapToken.Unmarshal", kind: "bin", small: 3, seeds: wrapSeed(), run: func(b []byte) {
 		for _, acc := range []bool{true, false} {
 			var t gssapi.WrapToken
-			if t.Unmarshal(b, acc) == nil {
+			if note(t.Unmarshal(b, acc)) == nil {
 				t.Verify(key17, 24)
 				t.Verify(key23, 22)
 				t.Marshal()
@@ -386,7 +411,7 @@ func buildRegistry() {
 	register(&entry{name: "gssapi.MICToken.Unmarshal", kind: "bin", small: 3, seeds: micSeed(), run: func(b []byte) {
 		for _, acc := range []bool{true, false} {
 			var t gssapi.MICToken
-			if t.Unmarshal(b, acc) == nil {
+			if note(t.Unmarshal(b, acc)) == nil {
 				t.Verify(key17, 25)
 				t.Marshal()
 			}
@@ -400,7 +425,7 @@ func buildRegistry() {
 	}()
 	register(&entry{name: "pac.PACType.Unmarshal+Process", kind: "bin", seeds: td(testdata.MarshaledPAC_AD_WIN2K_PAC), run: func(b []byte) {
 		var p pac.PACType
-		if p.Unmarshal(b) == nil {
+		if note(p.Unmarshal(b)) == nil {
 			p.ProcessPACInfoBuffers(pacKey, nil)
 		}
 	}})
@@ -414,47 +439,48 @@ func buildRegistry() {
 	}})
 	register(&entry{name: "pac.KerbValidationInfo.Unmarshal", kind: "bin", seeds: td(testdata.MarshaledPAC_Kerb_Validation_Info, testdata.MarshaledPAC_Kerb_Validation_Info_Trust, testdata.MarshaledPAC_Kerb_Validation_Info_MS), run: func(b []byte) {
 		var k pac.KerbValidationInfo
-		if k.Unmarshal(b) == nil {
+		if note(k.Unmarshal(b)) == nil {
 			k.GetGroupMembershipSIDs()
 		}
 	}})
 	register(&entry{name: "pac.ClientInfo.Unmarshal", kind: "bin", small: 3, seeds: td(testdata.MarshaledPAC_Client_Info), run: func(b []byte) {
 		var k pac.ClientInfo
-		k.Unmarshal(b)
+		note(k.Unmarshal(b))
 	}})
 	register(&entry{name: "pac.UPNDNSInfo.Unmarshal", kind: "bin", small: 3, seeds: td(testdata.MarshaledPAC_UPN_DNS_Info), run: func(b []byte) {
 		var k pac.UPNDNSInfo
-		k.Unmarshal(b)
+		note(k.Unmarshal(b))
 	}})
 	register(&entry{name: "pac.SignatureData.Unmarshal", kind: "bin", small: 3, seeds: td(testdata.MarshaledPAC_Server_Signature, testdata.MarshaledPAC_KDC_Signature), run: func(b []byte) {
 		var k pac.SignatureData
-		k.Unmarshal(b)
+		_, serr := k.Unmarshal(b)
+		note(serr)
 	}})
 	register(&entry{name: "pac.ClientClaimsInfo.Unmarshal", kind: "bin", seeds: td(testdata.MarshaledPAC_ClientClaimsInfoStr, testdata.MarshaledPAC_ClientClaimsInfoInt, testdata.MarshaledPAC_ClientClaimsInfoMulti, testdata.MarshaledPAC_ClientClaimsInfo_XPRESS_HUFF), run: func(b []byte) {
 		var k pac.ClientClaimsInfo
-		k.Unmarshal(b)
+		note(k.Unmarshal(b))
 		var d pac.DeviceClaimsInfo
-		d.Unmarshal(b)
+		note(d.Unmarshal(b))
 	}})
 	register(&entry{name: "pac.other-NDR-buffers.Unmarshal", kind: "bin", seeds: td(testdata.MarshaledPAC_Kerb_Validation_Info), run: func(b []byte) {
 		var a pac.S4UDelegationInfo
-		a.Unmarshal(b)
+		note(a.Unmarshal(b))
 		var d pac.DeviceInfo
-		d.Unmarshal(b)
+		note(d.Unmarshal(b))
 		var c pac.CredentialData
-		c.Unmarshal(b)
+		note(c.Unmarshal(b))
 		var n pac.NTLMSupplementalCred
-		n.Unmarshal(b)
+		note(n.Unmarshal(b))
 		var s pac.SECPKGSupplementalCred
-		s.Unmarshal(b)
+		note(s.Unmarshal(b))
 		var ci pac.CredentialsInfo
-		ci.Unmarshal(b, key18)
+		note(ci.Unmarshal(b, key18))
 	}})
 
 	// ---- files
 	register(&entry{name: "keytab.Keytab.Unmarshal", kind: "bin", small: 3, seeds: append(td(testdata.KEYTAB_SYSHTTP_TEST_GOKRB5, testdata.KEYTAB_SYSHTTP_RESDOM_GOKRB5), w.Keytab), run: func(b []byte) {
 		k := keytab.New()
-		if k.Unmarshal(b) == nil {
+		if note(k.Unmarshal(b)) == nil {
 			k.GetEncryptionKey(types.PrincipalName{NameType: 1, NameString: []string{"sysHTTP"}}, "TEST.GOKRB5", 0, 18)
 			_ = k.String()
 			k.JSON()
@@ -463,7 +489,7 @@ func buildRegistry() {
 	}})
 	register(&entry{name: "credentials.CCache.Unmarshal", kind: "bin", small: 3, seeds: td(testdata.CCACHE_TEST), run: func(b []byte) {
 		var c credentials.CCache
-		if c.Unmarshal(b) == nil {
+		if note(c.Unmarshal(b)) == nil {
 			p := c.GetClientPrincipalName()
 			pname(p)
 			c.GetClientRealm()
@@ -484,17 +510,33 @@ func buildRegistry() {
 	}
 	register(&entry{name: "credentials.Credentials.Unmarshal", kind: "bin", seeds: credSeed(), run: func(b []byte) {
 		var c credentials.Credentials
-		if c.Unmarshal(b) == nil {
+		if note(c.Unmarshal(b)) == nil {
 			c.JSON()
 			c.AuthzAttributes()
 		}
 	}})
-	register(&entry{name: "kadmin.Reply.Unmarshal", kind: "bin", small: 3, seeds: td(testdata.MarshaledKpasswd_Rep), run: func(b []byte) {
+	// the error form of a kpasswd reply: AP-REP length 0 followed by a KRB-ERROR whose e-data holds the result
+	kpErr := func() []byte {
+		ke := krbmsg.KRBError{PVNO: 5, MsgType: 30, STime: time.Unix(1700000000, 0).UTC(), Code: 60, Realm: "TEST.GOKRB5", SName: krbmsg.PrincipalName{Type: 2, Names: []string{"kadmin", "changepw"}}, EData: append([]byte{0, 3}, []byte("auth error")...)}.Encode()
+		total := 6 + len(ke)
+		return append([]byte{byte(total >> 8), byte(total), 0, 1, 0, 0}, ke...)
+	}()
+	register(&entry{name: "kadmin.Reply.Unmarshal", kind: "bin", small: 3, seeds: append(td(testdata.MarshaledKpasswd_Rep), kpErr), run: func(b []byte) {
 		var r kadmin.Reply
-		if r.Unmarshal(b) == nil {
+		if note(r.Unmarshal(b)) == nil {
 			r.Decrypt(key18)
 		}
 	}})
+	for _, cs := range []string{confSeed, confSeed2} {
+		// the seeds must load completely, or the mutations of their later sections would never be reached
+		if cfg, err := config.NewFromString(cs); err != nil {
+			if _, unsupported := err.(config.UnsupportedDirective); !unsupported {
+				engine.FailValid("config.NewFromString(C04 seed configuration)", err)
+			}
+		} else if len(cfg.Realms) == 0 || len(cfg.DomainRealm) == 0 && cs == confSeed {
+			engine.FailValid("config.NewFromString(C04 seed configuration)", fmt.Errorf("sections missing after load: %d realms, %d domain mappings", len(cfg.Realms), len(cfg.DomainRealm)))
+		}
+	}
 	register(&entry{name: "config.NewFromString", kind: "text", seeds: [][]byte{[]byte(confSeed), []byte(confSeed2)}, run: func(b []byte) {
 		c, err := config.NewFromString(string(b))
 		if err == nil && c != nil {
@@ -510,6 +552,21 @@ func buildRegistry() {
 		pname(types.NewPrincipalName(1, string(b)))
 		types.GetHostAddress(string(b))
 	}})
+	for _, e := range registry {
+		if seedsMayFail[e.name] {
+			continue
+		}
+		for i, sd := range e.seeds {
+			lastErr = nil
+			func() {
+				defer func() { recover() }()
+				e.run(sd)
+			}()
+			if lastErr != nil {
+				engine.FailValid(fmt.Sprintf("C04 seed %d of %s", i, e.name), lastErr)
+			}
+		}
+	}
 	registerCrypto()
 	if withFlows {
 		registerFlows()
@@ -518,11 +575,13 @@ func buildRegistry() {
 
 func paSeeds() [][]byte {
 	// PA-DATA sequences as a KDC sends them in e-data: ETYPE-INFO2 / ETYPE-INFO with and without salt and s2kparams
-	return hx(
-		"30293027a103020113a220041e301c301aa003020112a1131b11544553542e474f4b524235757365723131",
-		"303a3038a103020113a231042f302d302ba003020112a1131b11544553542e474f4b524235757365723131a20f040d00001000",
-		"3024300aa103020113a20304023000300aa10302010ba203040230003009a103020102a2020400",
-		"30163014a10302010ba20d040b30093007a003020117a100")
+	salt := "TEST.GOKRB5user1"
+	return [][]byte{
+		krbmsg.EncodeMethodData([]krbmsg.PAData{{Type: 19, Value: krbmsg.EncodeETypeInfo2([]krbmsg.ETypeInfo2Entry{{EType: 18, Salt: &salt}})}}),
+		krbmsg.EncodeMethodData([]krbmsg.PAData{{Type: 19, Value: krbmsg.EncodeETypeInfo2([]krbmsg.ETypeInfo2Entry{{EType: 18, Salt: &salt, Params: []byte{0, 0, 0x10, 0}}, {EType: 17}})}, {Type: 2, Value: []byte{}}}),
+		krbmsg.EncodeMethodData([]krbmsg.PAData{{Type: 19, Value: krbmsg.EncodeETypeInfo2(nil)}, {Type: 11, Value: []byte{0x30, 0x00}}, {Type: 2, Value: []byte{}}}),
+		krbmsg.EncodeMethodData([]krbmsg.PAData{{Type: 11, Value: der.Seq(der.Seq(der.Explicit(0, der.Int(23)), der.Explicit(1, der.Octets([]byte{}))))}, {Type: 3, Value: []byte("salt")}}),
+	}
 }
 
 const confSeed = `[libdefaults]
@@ -547,8 +606,10 @@ const confSeed = `[libdefaults]
   admin_server = 10.80.88.88:749
   default_domain = test.gokrb5
   kpasswd_server = 10.80.88.88:464
-  auth_to_local = {
-   RULE:[2:$1](johndoe)s/^.*$/guest/
+  auth_to_local = RULE:[2:$1](johndoe)s/^.*$/guest/
+  auth_to_local = DEFAULT
+  auth_to_local_names = {
+   guest = nobody
   }
  }
  RESDOM.GOKRB5 = {
